@@ -397,6 +397,18 @@ func genC08(repo string) (string, error) {
 		}
 	}
 	o.strList("helpers_taking_builder_options", optHelpers, "create_operator.go: functions with a BuilderOption parameter")
+	// the gRPC layer above the builder: the region ScatterRegion hands to the scatterer (and so to the builder) is the one
+	// PD learnt from heartbeats - leader, pending and down peers included; the request's own copy is used only for a
+	// region PD does not know at all
+	gf, err := goast.Load(repo, "server/grpc_service.go")
+	if err != nil {
+		return "", err
+	}
+	c08Normalize(gf)
+	if err := o.skeleton(gf, "Server", "ScatterRegion", "skel_grpc_ScatterRegion",
+		goast.SkelOpt{Calls: set("GetRegion", "NewRegionInfo", "Scatter", "ScatterRegions"), Conds: true}); err != nil {
+		return "", err
+	}
 	return o.sb.String(), nil
 }
 
